@@ -60,7 +60,9 @@ UNREACHED_JUSTIFIED = {
 RULE = ("tie: distinct ops — exhaustive (qubit, selector, basis state) tables of _get_iota for n<=10, Gaussian-rational and float "
         "vectors (n=1..8; random dense/sparse, basis, product, GHZ, W, non-power-of-two lengths) whose slices, per-qubit entries and "
         "value were diffed against the Lean model, captured Tucker results whose post-processing was diffed; oracle: distinct "
-        "(check, n, state kind, vector hash) evaluated on the real code; non-trivial = n>=2")
+        "(check, n, state kind, vector hash) evaluated on the real code; non-trivial = n>=2; diversity pass (keys dv.*): "
+        "distinct (entry point, check, element form, state structure, n) with the input passed in its original form "
+        "(list / tuple / numpy scalars / int / float32 / float64 / complex64 / complex128 / read-only / strided), n = 1..6")
 
 GEN_PATH = "QclibModel/Gen/Entangle.lean"
 
@@ -915,6 +917,695 @@ def boundary_cases(ctx):
         oracle_mw_dtype(ctx, n)
 
 
+# ================================================================================================
+# INPUT-DIVERSITY SECTION  (functions _dv_* / _diversity_*, called from run_sizes through _diversity)
+#
+# Every public entry point of the property - meyer_wallach_entanglement(vector) and
+# geometric_entanglement(state_vector, return_product_state=False, product_state_with_factors=False)
+# (these are ALL the keywords the source has) - is called on inputs of the five form families:
+#   (1) element types   : _dv_cast / _dv_forms_for  (python list / tuple / list of numpy scalars / mixed list, numpy int64 /
+#                         int32 / float32 / float64 / complex64 / complex128, read-only and strided arrays, complex dtype with
+#                         exactly zero imaginary parts, negative zeros)
+#   (2) scale structure : _dv_states (heavy head + light tail 1e-3..1e-6 at the start / end / mixed, equal moduli, repeated
+#                         values, all-negative reals, purely imaginary, basis states at every index, sparse with exact zeros)
+#   (3) sign / phase    : _dv_states (phases +-1, +-i, global phases -1 / i, factors |+i>, |->, |1>, -|0>, i|0>, graph states)
+#   (4) call forms      : DV_GEO_STYLES, _diversity_geo_callforms (every keyword default / explicitly default / non-default,
+#                         positional / keyword / keyword-only in swapped order, numpy bools), meyer_wallach(vector=...)
+#   (5) sizes           : n = 1 (Meyer-Wallach only: geometric_entanglement needs n >= 2), 2, 3, 4, 5, 6
+# The ideal is always computed from the ORIGINAL input converted by the harness itself (np.asarray(raw, dtype=complex)).
+# Every call also checks that the input object was not modified.
+# ================================================================================================
+
+_S2 = 1 / math.sqrt(2)
+DV_FACTORS = {"+i": (_S2, _S2 * 1j), "-": (_S2, -_S2), "1": (0, 1), "-0": (-1, 0), "i0": (1j, 0)}
+DV_FACTOR_ORDER = ["+i", "-", "1", "-0", "i0"]
+DV_TOL32 = 5e-5      # float32 / complex64 input: tensorly computes in single precision (unchanged code reaches 3e-7)
+DV_INT_FORMS = ("int64", "int32")
+
+
+def _dv_special_factors(n, rot):
+    """one-qubit factors with a genuinely complex relative phase / signs: factor of qubit q is DV_FACTOR_ORDER[(rot+q)%5]"""
+    return [np.array(DV_FACTORS[DV_FACTOR_ORDER[(rot + q) % 5]], dtype=complex) for q in range(n)]
+
+
+def _dv_kron_qubits(fs):
+    """fs[q] = factor of qubit q (bit q of the index)"""
+    return kron_all(fs[::-1])
+
+
+def _dv_embed(head, k, rest, where, n):
+    """k-qubit state `head` placed on the qubits `where` (tuple of k distinct qubits), `rest` ((n-k)-qubit vector) on the others"""
+    v = np.kron(np.asarray(head, dtype=complex), np.asarray(rest, dtype=complex))   # head = qubits n-1 .. n-k
+    perm = [None] * n
+    for i, q in enumerate(where):
+        perm[q] = n - 1 - i
+    others = iter(range(n - k))
+    for q in range(n):
+        if perm[q] is None:
+            perm[q] = next(others)
+    return permute_qubits(v, n, perm)
+
+
+def _dv_graph(n, edges):
+    N = 2 ** n
+    v = np.full(N, 1 / math.sqrt(N), dtype=complex)
+    for b in range(N):
+        for (a, c) in edges:
+            if (b >> a) & 1 and (b >> c) & 1:
+                v[b] = -v[b]
+    return v
+
+
+def _dv_unit_phase(r, choices=(1, -1, 1j, -1j)):
+    return complex(r.choice(choices))
+
+
+def _dv_states(ctx, n):
+    """(name, unit vector as complex128, info) - info: product (bool), mw (exact value or None),
+    geo ((exact value, tolerance) or None).  Names identify the structure, the numbers come from ctx.rng."""
+    r = ctx.rng
+    N = 2 ** n
+    out = []
+
+    def add(name, v, product=False, mw=None, geo=None):
+        v = np.asarray(v, dtype=complex)
+        out.append((name, v / np.linalg.norm(v), {"product": product or n == 1, "mw": mw, "geo": geo}))
+
+    # --- (2) heavy head + light tail
+    eps = [1e-3, 1e-4, 1e-5, 1e-6]
+    for where in ("start", "end", "mixed"):
+        if where == "mixed" and N < 4:
+            continue
+        v = np.zeros(N, dtype=complex)
+        heavy = {"start": [0], "end": [N - 1], "mixed": sorted(r.sample(range(N), 2))}[where]
+        for i in range(N):
+            v[i] = eps[(i + r.randrange(4)) % 4] * np.exp(1j * r.uniform(0, 2 * math.pi))
+        for h in heavy:
+            v[h] = r.uniform(0.6, 1.0) * np.exp(1j * r.uniform(0, 2 * math.pi))
+        add("tail-" + where, v)
+    v = np.array([-eps[i % 4] * r.uniform(1, 3) for i in range(N)])
+    v[r.randrange(N)] = -1.0
+    add("tail-real-neg", v)
+    # --- equal moduli, phases +-1 / +-i ; repeated values ; all negative ; purely imaginary
+    add("eqmod-pm1", [r.choice((1, -1)) for _ in range(N)], product=(n == 1))
+    add("eqmod-pmi", [_dv_unit_phase(r) for _ in range(N)], product=(n == 1))
+    add("eqmod-allneg", [-1.0] * N, product=True)
+    a, b = r.uniform(0.2, 0.5), r.uniform(0.6, 1.0)
+    add("repeat-2values", [r.choice((a, b, -a)) for _ in range(N)], product=(n == 1))
+    g = ctx.nprng()
+    add("allneg-real", -np.abs(g.normal(size=N)) - 0.05, product=(n == 1))
+    add("imag-only", 1j * g.normal(size=N), product=(n == 1))
+    add("dense-complex", g.normal(size=N) + 1j * g.normal(size=N), product=(n == 1))
+    add("dense-real", g.normal(size=N), product=(n == 1))
+    # --- basis states at every index (n <= 4), sign alternating with the index, both signs at the last index
+    idxs = list(range(N)) if n <= 4 else sorted({0, 1, N - 1, N - 2, 3, 5, r.randrange(N), r.randrange(N)})
+    for i in idxs:
+        for sg, nm in ((1, ""), (-1, "-neg")):
+            if n <= 2 or i == N - 1 or (sg == 1) == (i % 2 == 0):
+                v = np.zeros(N, dtype=complex)
+                v[i] = sg
+                add(f"basis{i}{nm}", v, product=True)
+    for ph, nm in ((1j, "-i"), (-1j, "-mi")):
+        v = np.zeros(N, dtype=complex)
+        i = r.randrange(N)
+        v[i] = ph
+        add(f"basis{i}{nm}", v, product=True)
+    # --- (3) product states of the special factors, times global phases
+    for rot in (range(5) if n <= 4 else (r.randrange(5), r.randrange(5))):
+        p = _dv_kron_qubits(_dv_special_factors(n, rot))
+        add(f"prod-special{rot}", p, product=True)
+    rot = r.randrange(5)
+    p = _dv_kron_qubits(_dv_special_factors(n, rot))
+    add(f"prod-special{rot}-gneg", -p, product=True)
+    add(f"prod-special{rot}-gi", 1j * p, product=True)
+    if n == 1:
+        return out
+    # --- GHZ with relative / global phases, graph states (all moduli equal, phases +-1, every qubit maximally mixed)
+    for nm, rel, glob in (("", 1, 1), ("-rel-neg", -1, 1), ("-rel-i", 1j, 1), ("-glob-i", 1, 1j), ("-glob-neg", 1, -1)):
+        v = np.zeros(N, dtype=complex)
+        v[0], v[-1] = glob * _S2, glob * rel * _S2
+        add("ghz" + nm, v, mw=1.0, geo=(0.5, GEO_TOL))
+    add("graph-line", _dv_graph(n, [(q, q + 1) for q in range(n - 1)]), mw=1.0)
+    if n >= 3:
+        add("graph-star", _dv_graph(n, [(0, q) for q in range(1, n)]), mw=1.0, geo=(0.5, GEO_TOL))
+        add("graph-ring", _dv_graph(n, [(q, (q + 1) % n) for q in range(n)]), mw=1.0)
+    # --- W, W with one qubit flipped (the C20a pattern and its three mirror images), W with phases
+    wmw = 4 * (n - 1) / n ** 2
+    wgeo = (1 - ((n - 1) / n) ** (n - 1), W_TOL)
+    add("w", wstate(n), mw=wmw, geo=wgeo)
+    for q in sorted({0, n - 1, n // 2}):
+        add(f"w-flip-q{q}", apply_1q(wstate(n), n, q, np.array([[0, 1], [1, 0]])), mw=wmw, geo=wgeo)
+    v = wstate(n)
+    for k in range(n):
+        v[1 << k] *= _dv_unit_phase(r)
+    add("w-phases", v, mw=wmw, geo=wgeo)
+    # --- sparse with exact zeros: exactly one zero amplitude (n <= 3: at every index), half-vanishing slices
+    if n <= 3:
+        for z in range(N):
+            v = np.array([_dv_unit_phase(r) for _ in range(N)])
+            v[z] = 0
+            add(f"onezero{z}", v)
+    for q in sorted({0, n - 1}):
+        for half in (0, 1):
+            v = g.normal(size=N) + 1j * g.normal(size=N)
+            for b in range(N):
+                red = ((b >> (q + 1)) << q) | (b & ((1 << q) - 1))
+                if (b >> q) & 1 == half and red % 2 == 1:
+                    v[b] = 0      # the (bit q = half) slice vanishes at odd reduced indices where the other slice does not
+            add(f"halfvanish{half}-q{q}", v)
+    # --- entanglement in a single pair of qubits, the rest a product of special factors
+    bell = {"phi+": [1, 0, 0, 1], "phi-": [1, 0, 0, -1], "psi+": [0, 1, 1, 0], "psi-": [0, 1, -1, 0], "phi+i": [1, 0, 0, 1j]}
+    pairs = [(a, b) for a in range(n) for b in range(n) if a < b] if n <= 4 else [(0, n - 1), tuple(sorted(r.sample(range(n), 2)))]
+    bnames = list(bell)
+    for i, (a, b) in enumerate(pairs):
+        rest = _dv_kron_qubits(_dv_special_factors(n - 2, i)) if n > 2 else np.array([1.0 + 0j])
+        for bn in (bnames if n == 2 else [bnames[i % 5]]):
+            add(f"bell-{bn}-q{a}q{b}", _dv_embed(bell[bn], 2, rest, (b, a), n), mw=2 / n, geo=(0.5, GEO_TOL))
+        th = r.choice((r.uniform(0.25, 0.45), r.uniform(1.1, 1.3)))
+        c, s_ = math.cos(th), math.sin(th)
+        head = [c, 0, 0, s_ * np.exp(1j * r.uniform(0, 2 * math.pi))]
+        add(f"pair-q{a}q{b}", _dv_embed(head, 2, rest, (b, a), n),
+            mw=(4 / n) * (1 - c ** 4 - s_ ** 4), geo=(1 - max(c * c, s_ * s_), W_TOL))
+    # --- products of Bell pairs
+    if n >= 4:
+        pairings = [((0, 1), (2, 3)), ((0, 2), (1, 3)), ((0, 3), (1, 2))] if n == 4 else [((0, n - 1), (1, 2))]
+        if n == 6:
+            pairings = [((0, 5), (1, 3), (2, 4))]
+        for pi, prs in enumerate(pairings):
+            k = 2 * len(prs)
+            head = np.array([1.0 + 0j])
+            for j in range(len(prs)):
+                head = np.kron(head, np.array(bell[bnames[(pi + j) % 5]], dtype=complex))
+            rest = _dv_kron_qubits(_dv_special_factors(n - k, pi)) if n > k else np.array([1.0 + 0j])
+            where = tuple(q for pr in prs for q in (pr[1], pr[0]))
+            add("bellprod-" + "-".join(f"q{a}q{b}" for a, b in prs), _dv_embed(head, k, rest, where, n),
+                mw=k / n, geo=(1 - 0.5 ** len(prs), GEO_TOL))
+    return out
+
+
+# ---- (1) element types -------------------------------------------------------------------------
+
+def _dv_kind(vec):
+    """'int' (all entries in {0, +-1}), 'real' (exactly zero imaginary parts) or 'complex'"""
+    vec = np.asarray(vec, dtype=complex)
+    if np.all(vec.imag == 0):
+        if np.all(np.isin(vec.real, (0.0, 1.0, -1.0))):
+            return "int"
+        return "real"
+    return "complex"
+
+
+def _dv_forms_for(vec):
+    kind = _dv_kind(vec)
+    forms = []
+    if kind == "int":
+        forms += ["int64", "list-int", "int32", "tuple-int", "npscalars-int"]
+    if kind in ("int", "real"):
+        forms += ["f64", "f32", "list-float", "tuple-float", "npscalars-float", "negzero", "c128-negzero"]
+    forms += ["c128", "c64", "list-complex", "tuple-complex", "npscalars-complex", "list-mixed", "readonly", "strided"]
+    return forms
+
+
+def _dv_cast(form, vec):
+    """the user's input object of the given form holding the amplitudes `vec` (complex128 array)"""
+    vec = np.asarray(vec, dtype=complex).reshape(-1)
+    re = vec.real
+    if form == "c128":
+        return np.array(vec, dtype=np.complex128)
+    if form == "c64":
+        return vec.astype(np.complex64)
+    if form == "readonly":
+        a = np.array(vec, dtype=np.complex128)
+        a.setflags(write=False)
+        return a
+    if form == "strided":
+        buf = np.zeros(2 * len(vec), dtype=np.complex128)
+        buf[::2] = vec
+        return buf[::2]
+    if form == "list-complex":
+        return [complex(z) for z in vec]
+    if form == "tuple-complex":
+        return tuple(complex(z) for z in vec)
+    if form == "npscalars-complex":
+        return [np.complex128(z) for z in vec]
+    if form == "list-mixed":        # int 0 / 1 / -1, python floats and python complex numbers in one list
+        return [int(z.real) if (z.imag == 0 and z.real in (0.0, 1.0, -1.0)) else (float(z.real) if z.imag == 0 else complex(z))
+                for z in vec]
+    if form == "f64":
+        return np.array(re, dtype=np.float64)
+    if form == "f32":
+        return re.astype(np.float32)
+    if form == "list-float":
+        return [float(x) for x in re]
+    if form == "tuple-float":
+        return tuple(float(x) for x in re)
+    if form == "npscalars-float":
+        return [np.float64(x) for x in re]
+    if form == "negzero":
+        a = np.array(re, dtype=np.float64)
+        a[a == 0] = -0.0
+        return a
+    if form == "c128-negzero":      # complex dtype, imaginary parts exactly (negative) zero, zeros negative
+        a = np.array(re, dtype=np.float64)
+        a[a == 0] = -0.0
+        return np.array([complex(x, -0.0) for x in a], dtype=np.complex128)
+    if form == "int64":
+        return np.array(np.rint(re), dtype=np.int64)
+    if form == "int32":
+        return np.array(np.rint(re), dtype=np.int32)
+    if form == "list-int":
+        return [int(round(x)) for x in re]
+    if form == "tuple-int":
+        return tuple(int(round(x)) for x in re)
+    if form == "npscalars-int":
+        return [np.int64(round(x)) for x in re]
+    raise ValueError(form)
+
+
+def _dv_snapshot(raw):
+    """bit-exact fingerprint of the input object (to check that the call did not modify it)"""
+    if isinstance(raw, np.ndarray):
+        return ("nd", raw.dtype.str, raw.shape, np.ascontiguousarray(raw).tobytes())
+    return (type(raw).__name__, tuple((type(x).__name__, np.asarray(x).tobytes()) for x in raw))
+
+
+def _dv_family(sname):
+    import re
+    return re.sub(r"-q\d+(q\d+)?", "", re.sub(r"(?<=[a-z])\d+", "", sname))
+
+
+def _dv_single(form):
+    return form in ("c64", "f32")
+
+
+def _dv_payload(entry, form, sname, n, vec, info, **kw):
+    d = {"kind": "dv", "entry": entry, "form": form, "state": sname, "n": n,
+         "re": [float(x) for x in vec.real], "im": [float(x) for x in vec.imag],
+         "info": {"product": bool(info.get("product")), "mw": info.get("mw"),
+                  "geo": list(info["geo"]) if info.get("geo") else None}}
+    d.update(kw)
+    return d
+
+
+_DV_FAILED = set()
+
+
+def _dv_fail(ctx, key, detail, payload):
+    """report once per key and run (later hits of the same narrow key are only counted)"""
+    tag = (id(ctx), key)
+    if tag in _DV_FAILED:
+        ctx.count("diversity:repeat-of-reported-key")
+        return
+    _DV_FAILED.add(tag)
+    ctx.fail(key, detail, payload)
+
+
+def mw_pairs_ideal(vec):
+    """independent, cancellation-free evaluation of the definition: per qubit k the sum over index pairs of
+    |u_i w_j - u_j w_i|^2 (u, w = the bit k = 0 / 1 halves), i.e. det rho_k = (1 - Tr rho_k^2)/2 - accurate to a RELATIVE
+    1e-13, which the partial-trace form is not when the value is ~1e-12 (heavy head + light tail)"""
+    vec = np.asarray(vec, dtype=complex).reshape(-1)
+    n = len(vec).bit_length() - 1
+    t = vec.reshape((2,) * n)
+    ent = []
+    for k in range(n):
+        m = np.moveaxis(t, n - 1 - k, 0).reshape(2, -1)
+        d = np.outer(m[0], m[1])
+        d = d - d.T
+        ent.append(0.5 * float(np.sum(np.abs(d) ** 2)))
+    return 4 / n * sum(ent), ent
+
+
+def _dv_call_mw(raw, keyword=False):
+    """the REAL meyer_wallach_entanglement on the raw input object (no conversion by the harness)"""
+    E = _E()
+    rec = []
+    orig = E.generalized_cross_product
+
+    def wrapper(u, w):
+        res = orig(u, w)
+        rec.append(res)
+        return res
+    E.generalized_cross_product = wrapper
+    try:
+        if keyword:
+            val = _guard(lambda: E.meyer_wallach_entanglement(vector=raw))
+        else:
+            val = _guard(E.meyer_wallach_entanglement, raw)
+    finally:
+        E.generalized_cross_product = orig
+    return _real(val, "meyer_wallach_entanglement"), [_real(e, "generalized_cross_product") for e in rec]
+
+
+DV_GATES = {
+    "X": np.array([[0, 1], [1, 0]], dtype=complex),
+    "Z": np.array([[1, 0], [0, -1]], dtype=complex),
+    "S": np.array([[1, 0], [0, 1j]], dtype=complex),
+    "H": np.array([[1, 1], [1, -1]], dtype=complex) * _S2,
+    "D": np.diag([np.exp(0.3j), np.exp(-1.1j)]),
+}
+
+
+def _dv_perms(n):
+    import itertools
+    if n <= 4:
+        return [list(p) for p in itertools.permutations(range(n))][1:]
+    return [list(range(n))[::-1], list(range(1, n)) + [0], [n - 1] + list(range(1, n - 1)) + [0]]
+
+
+def _dv_mw_case(ctx, n, form, sname, raw, info, keyword=False, tie=False, inv=None):
+    """Meyer-Wallach on the raw input: value against both independent evaluations of the definition (absolute 1e-9 and
+    relative 1e-7), per-qubit entries, range, zero on products, exact values, input unmodified, invariances."""
+    vec = np.asarray(raw, dtype=complex).reshape(-1)          # the harness's own conversion of the ORIGINAL input
+    K = lambda c: f"dv.mw.{c}:{form}:{sname}:n={n}"
+    rp = _dv_payload("mw", form, sname, n, vec, info, keyword=keyword, inv=inv)
+    snap = _dv_snapshot(raw)
+    ctx.count(f"diversity:mw:form={form}")
+    ctx.count(f"diversity:mw:n={n}")
+    ctx.count("diversity:mw:state=" + _dv_family(sname))
+    ctx.count("diversity:mw:call=" + ("keyword vector=" if keyword else "positional"))
+    try:
+        val, ent = _dv_call_mw(raw, keyword)
+    except NonReal as e:
+        _dv_fail(ctx, K("non-real"), str(e), rp)
+        return
+    except RealCodeRaised as e:
+        _dv_fail(ctx, K("raises"), f"meyer_wallach_entanglement raised on a valid {n}-qubit state given as {form}: {e}", rp)
+        return
+    if _dv_snapshot(raw) != snap:
+        _dv_fail(ctx, K("input-modified"), "the input object was modified by the call", rp)
+    else:
+        ctx.ok(K("input-unmodified"), nontrivial=n >= 2)
+    # a float32 / complex64 input is a unit vector to 6e-8 only: the definition is evaluated on the normalised input (to 1e-6
+    # there), the un-normalised determinant form on the input as given (all forms, relative 1e-10 + absolute 1e-13: unchanged
+    # code reaches 1e-15 relative; the absolute floor leaves room for a correct but cancelling formula such as Lagrange's)
+    vtol = 1e-6 if _dv_single(form) else TOL
+    ideal = mw_ideal(vec / np.linalg.norm(vec))
+    idealp, entp = mw_pairs_ideal(vec)
+    checks = [("value", abs(val - ideal) <= vtol, f"meyer_wallach={val!r} but 2(1-mean purity)={ideal!r}"),
+              ("value-rel", abs(val - idealp) <= 1e-10 * idealp + 1e-13,
+               f"meyer_wallach={val!r} but (4/n) sum_k det rho_k = {idealp!r} (relative check, light amplitudes matter)"),
+              ("entries", len(ent) == n and all(abs(a - b) <= 1e-10 * b + 1e-13 for a, b in zip(ent, entp)),
+               f"per-qubit entries {ent} vs det rho_k {entp}"),
+              ("range", -vtol <= val <= 1 + vtol, f"value {val!r} outside [0,1]")]
+    if info.get("product"):
+        checks.append(("product-zero", abs(val) <= vtol, f"product state has value {val!r}"))
+    elif idealp > 1e-20:
+        checks.append(("nonproduct-nonzero", val > 0.5 * idealp, f"non-product state (definition gives {idealp!r}) has value {val!r}"))
+    if info.get("mw") is not None:
+        checks.append(("exact", abs(val - info["mw"]) <= vtol,
+                       f"value {val!r}, closed form {info['mw']!r}"))
+    for name, good, msg in checks:
+        if good:
+            ctx.ok(K(name), nontrivial=n >= 2)
+        else:
+            _dv_fail(ctx, K(name), msg, dict(rp, check=name, observed=val))
+    if tie:
+        tie_mwf_raw(ctx, f"dv-{form}-{sname}", raw, vec)
+    if not inv:
+        return
+    # invariances, evaluated in the SAME element form (X, Z and relabelling keep integers / reals / single precision exact)
+    gates = ("X", "Z") if inv == "exact" else tuple(DV_GATES)
+    for gi, gname in enumerate(gates):
+        # every qubit for n <= 4; n = 5: first / middle / last; n = 6: one qubit per gate (chosen by the state's name)
+        qubits = range(n) if n <= 4 else (sorted({0, n // 2, n - 1}) if n == 5 else [(gi + len(sname)) % n])
+        for q in qubits:
+            w = apply_1q(vec, n, q, DV_GATES[gname])
+            ctx.count("diversity:mw:invariance=" + gname)
+            try:
+                v2, _ = _dv_call_mw(_dv_cast(form, w) if inv == "exact" else w)
+            except (NonReal, RealCodeRaised) as e:
+                _dv_fail(ctx, K(f"lu-{gname}-raises"), str(e), dict(rp, gate=gname, qubit=q))
+                continue
+            if abs(v2 - val) <= TOL and abs(v2 - val) <= 1e-6 * idealp + 1e-13:
+                ctx.ok(K(f"lu-{gname}-q{q}"), nontrivial=n >= 2)
+            else:
+                _dv_fail(ctx, K(f"lu-{gname}"), f"value {val!r} -> {v2!r} after {gname} on qubit {q}", dict(rp, gate=gname, qubit=q))
+    for perm in _dv_perms(n):
+        w = permute_qubits(vec, n, perm)
+        ctx.count("diversity:mw:invariance=relabel")
+        try:
+            v2, _ = _dv_call_mw(_dv_cast(form, w) if inv == "exact" else w)
+        except (NonReal, RealCodeRaised) as e:
+            _dv_fail(ctx, K("relabel-raises"), str(e), dict(rp, perm=perm))
+            continue
+        if abs(v2 - val) <= TOL and abs(v2 - val) <= 1e-6 * idealp + 1e-13:
+            ctx.ok(K("relabel-" + "".join(map(str, perm))), nontrivial=n >= 2)
+        else:
+            _dv_fail(ctx, K("relabel"), f"value {val!r} -> {v2!r} after qubit permutation {perm}", dict(rp, perm=perm))
+
+
+def tie_mwf_raw(ctx, kind, raw, vec):
+    """float correspondence of the Meyer-Wallach value / entries with the real code run on the RAW input object"""
+    op = {"op": "mwf", "re": [float(x) for x in vec.real], "im": [float(x) for x in vec.imag]}
+    E = _E()
+    rec = []
+    orig = E.generalized_cross_product
+
+    def wrapper(u, w):
+        res = orig(u, w)
+        rec.append(res)
+        return res
+    E.generalized_cross_product = wrapper
+    try:
+        val = E.meyer_wallach_entanglement(raw)
+        lines = [f"e {q} ; {_real(e, 'entry')!r}" for q, e in enumerate(rec)] + [f"mw ; {_real(val, 'mw')!r}"]
+    except NonReal as e:
+        lines = ["non-real ; " + str(e).replace(";", ",")]
+    except Exception:  # noqa: BLE001 - already reported by the oracle
+        return
+    finally:
+        E.generalized_cross_product = orig
+    ctx.tie(op, lines, label=f"mwf {kind} len={len(vec)}")
+    ctx.count("diversity:tie-mwf")
+
+
+# ---- geometric_entanglement ---------------------------------------------------------------------
+
+# (4) call forms that must all return (measure, product state, factors)
+DV_GEO_STYLES = {
+    "positional": lambda E, x: E.geometric_entanglement(x, True, True),
+    "keyword": lambda E, x: E.geometric_entanglement(x, return_product_state=True, product_state_with_factors=True),
+    "keyword-only-swapped": lambda E, x: E.geometric_entanglement(product_state_with_factors=True, return_product_state=True,
+                                                                  state_vector=x),
+    "mixed": lambda E, x: E.geometric_entanglement(x, True, product_state_with_factors=True),
+    "numpy-bool": lambda E, x: E.geometric_entanglement(x, np.True_, np.bool_(True)),
+}
+DV_GEO_STYLE_ORDER = list(DV_GEO_STYLES)
+
+
+def _dv_geo_case(ctx, n, form, sname, raw, info, seed, style="positional", tie=False):
+    """geometric_entanglement on the raw input: shapes, range, normalisation, product state = phase * kron(factors),
+    fidelity = 1 - measure with the ORIGINAL input, zero on products, closed-form values, input unmodified."""
+    E = _E()
+    vec = np.asarray(raw, dtype=complex).reshape(-1)
+    K = lambda c: f"dv.geo.{c}:{form}:{sname}:n={n}"
+    rp = _dv_payload("geo", form, sname, n, vec, info, seed=seed, style=style)
+    single = _dv_single(form)
+    tol = DV_TOL32 if single else TOL
+    gtol = DV_TOL32 if single else GEO_TOL
+    ftol = DV_TOL32 if single else FID_TOL
+    snap = _dv_snapshot(raw)
+    ctx.count(f"diversity:geo:form={form}")
+    ctx.count(f"diversity:geo:n={n}")
+    ctx.count("diversity:geo:state=" + _dv_family(sname))
+    ctx.count("diversity:geo:call=" + style)
+    rec = []
+    orig = E.tucker
+
+    def wrapper(*a, **k):
+        res = orig(*a, **k)
+        rec.append((complex(np.asarray(res.core).flatten()[0]),
+                    [np.asarray(f).reshape(-1).astype(complex).copy() for f in res.factors]))
+        return res
+    np.random.seed(seed)
+    E.tucker = wrapper
+    try:
+        with np.errstate(all="ignore"):
+            out = _guard(DV_GEO_STYLES[style], E, raw)
+    except RealCodeRaised as e:
+        _dv_fail(ctx, K("raises"), f"geometric_entanglement raised on a valid {n}-qubit state given as {form}: {e}", rp)
+        return
+    finally:
+        E.tucker = orig
+    if _dv_snapshot(raw) != snap:
+        _dv_fail(ctx, K("input-modified"), "the input object was modified by the call", rp)
+    else:
+        ctx.ok(K("input-unmodified"), nontrivial=True)
+    if not (isinstance(out, tuple) and len(out) == 3):
+        _dv_fail(ctx, K("return-shape"), f"call style {style}: returned {type(out).__name__}, not (measure, product state, factors)", rp)
+        return
+    try:
+        loss = _real(out[0], "geometric_entanglement")
+    except NonReal as e:
+        _dv_fail(ctx, K("non-real"), str(e), rp)
+        return
+    ps = np.asarray(out[1]).reshape(-1).astype(complex)
+    fs = [np.asarray(f) for f in out[2]]
+    kr = np.array([1.0 + 0j])
+    for f in fs:
+        kr = np.kron(kr, np.asarray(f, dtype=complex).reshape(-1))
+    checks = [("range", -gtol <= loss <= 1 + gtol, f"measure {loss!r} outside [0,1]"),
+              ("normalised", abs(np.linalg.norm(ps) - 1) <= tol, f"|product_state| = {np.linalg.norm(ps)!r}"),
+              ("shape", len(fs) == n and all(f.shape == (1, 2) for f in fs) and ps.shape == vec.shape,
+               f"factors are not {n} arrays of shape (1,2): {[f.shape for f in fs]}")]
+    if len(kr) == len(ps):
+        ph = np.vdot(kr, ps)
+        dev = float(np.abs(ps - ph * kr).max())
+        checks.append(("kron-factors", abs(abs(ph) - 1) <= tol and dev <= tol,
+                       f"product_state != phase * kron(factors): |phase|={abs(ph)!r}, max dev {dev!r}"))
+    if len(ps) == len(vec):
+        fid = abs(np.vdot(ps, vec)) ** 2
+        checks.append(("fidelity", abs(fid - (1 - loss)) <= ftol, f"fidelity {fid!r} vs 1-measure {1 - loss!r}"))
+    if info.get("product"):
+        checks.append(("product-zero", abs(loss) <= gtol, f"product state has measure {loss!r}"))
+    if info.get("geo"):
+        want, wtol = info["geo"]
+        checks.append(("exact", abs(loss - want) <= max(wtol, gtol), f"measure {loss!r}, closed form {want!r} (tol {max(wtol, gtol)})"))
+    for name, good, msg in checks:
+        if good:
+            ctx.ok(K(name), nontrivial=True)
+        else:
+            _dv_fail(ctx, K(name), msg, dict(rp, check=name, observed=loss))
+    if tie and not single and len(rec) >= 1:
+        tie_geo(ctx, f"dv-{form}-{sname}", vec, seed, loss, ps, fs, rec)
+        ctx.count("diversity:tie-geo")
+
+
+def _diversity_geo_callforms(ctx, n, form, sname, raw, seed):
+    """(4) every keyword at its default / explicitly default / non-default, positional vs keyword, on the same input and
+    seed: the measure must be the same number in all of them, the product state the same vector, the return shape as
+    documented (float / 2-tuple / 3-tuple)."""
+    E = _E()
+    g = E.geometric_entanglement
+    vec = np.asarray(raw, dtype=complex).reshape(-1)
+    calls = [
+        ("default", 1, lambda: g(raw)),
+        ("kw-state-only", 1, lambda: g(state_vector=raw)),
+        ("pos-F", 1, lambda: g(raw, False)),
+        ("pos-F-F", 1, lambda: g(raw, False, False)),
+        ("kw-F-F", 1, lambda: g(raw, return_product_state=False, product_state_with_factors=False)),
+        ("kw-factors-only", 1, lambda: g(raw, product_state_with_factors=True)),
+        ("pos-F-T", 1, lambda: g(raw, False, True)),
+        ("pos-T", 2, lambda: g(raw, True)),
+        ("kw-T", 2, lambda: g(raw, return_product_state=True)),
+        ("pos-T-F", 2, lambda: g(raw, True, False)),
+        ("kw-T-F-swapped", 2, lambda: g(raw, product_state_with_factors=False, return_product_state=True)),
+        ("pos-T-T", 3, lambda: g(raw, True, True)),
+        ("kw-T-T", 3, lambda: g(raw, return_product_state=True, product_state_with_factors=True)),
+        ("kw-all-swapped", 3, lambda: g(product_state_with_factors=True, state_vector=raw, return_product_state=True)),
+        ("numpy-bool-T-T", 3, lambda: g(raw, np.True_, np.True_)),
+        ("numpy-bool-F-F", 1, lambda: g(raw, np.False_, np.False_)),
+    ]
+    rp = _dv_payload("geo-callforms", form, sname, n, vec, {}, seed=seed)
+    ref = None
+    for cname, arity, fn in calls:
+        ctx.count("diversity:geo:callform=" + cname)
+        key = f"dv.geo.callform:{cname}:{form}:{sname}:n={n}"
+        np.random.seed(seed)
+        try:
+            with np.errstate(all="ignore"):
+                out = _guard(fn)
+        except RealCodeRaised as e:
+            _dv_fail(ctx, key, f"raised: {e}", dict(rp, callform=cname))
+            continue
+        got = 1 if not isinstance(out, tuple) else len(out)
+        if got != arity:
+            _dv_fail(ctx, key, f"returned {type(out).__name__} of {got} component(s), documented: {arity}", dict(rp, callform=cname))
+            continue
+        loss = complex(out[0] if arity > 1 else out)
+        psv = np.asarray(out[1]).reshape(-1).astype(complex) if arity > 1 else None
+        if ref is None:
+            ref = [loss, None]
+        if psv is not None and ref[1] is None:
+            ref[1] = psv
+        tol = 1e-6 if _dv_single(form) else 1e-12
+        bad = abs(loss - ref[0]) > tol or (psv is not None and (psv.shape != ref[1].shape or float(np.abs(psv - ref[1]).max()) > tol))
+        tol2 = DV_TOL32 if _dv_single(form) else FID_TOL
+        if psv is not None and not np.isnan(psv).any() and psv.shape == vec.shape and (
+                abs(np.linalg.norm(psv) - 1) > tol2 or abs(abs(np.vdot(psv, vec)) ** 2 - (1 - loss.real)) > tol2):
+            # each return shape on its own: the product state is normalised and has fidelity 1 - measure with the input
+            _dv_fail(ctx, key, f"|product_state| = {np.linalg.norm(psv)!r}, fidelity {abs(np.vdot(psv, vec)) ** 2!r}, "
+                     f"1 - measure = {1 - loss.real!r}", dict(rp, callform=cname))
+        elif bad or loss != loss:
+            _dv_fail(ctx, key, f"same input and seed: measure {loss!r} vs {ref[0]!r} of the default call, or a different product state",
+                     dict(rp, callform=cname))
+        else:
+            ctx.ok(key, nontrivial=True)
+
+
+def _diversity(ctx, reps=1):
+    """entry of the diversity pass: every state structure x sizes n = 1..6 x element forms x call forms"""
+    for rep in range(reps):
+        for n in (1, 2, 3, 4, 5, 6):
+            sts = _dv_states(ctx, n)
+            for si, (sname, vec, info) in enumerate(sts):
+                forms = _dv_forms_for(vec)
+                # n <= 3: every applicable element form; larger n: complex128 plus rotating forms (integer forms first)
+                if n <= 3:
+                    chosen = forms
+                else:
+                    rest = [f for f in forms if f != "c128"]
+                    k = 2 if n == 4 else 1
+                    chosen = ["c128"] + [rest[(si * k + j + rep) % len(rest)] for j in range(k)]
+                    if n == 5 and si % 2 == 1:
+                        chosen = chosen[:1]
+                    if n == 6:                  # one form per state: complex128 and a rotating form alternate
+                        chosen = chosen[:1] if si % 2 == 0 else chosen[1:]
+                    chosen = list(dict.fromkeys(chosen))
+                # the expensive observables (geometric measure, invariances in the same element form) on complex128, on
+                # every integer form and on four rotating other forms; the Meyer-Wallach value on every chosen form
+                others = [f for f in chosen if f != "c128" and not f.endswith("int") and f not in DV_INT_FORMS]
+                ints = [f for f in chosen if f.endswith("int") or f in DV_INT_FORMS]
+                heavy = set(chosen) if n > 3 else ({"c128"} | set(ints[:2]) | {f for f in ints[2:][(si + rep) % 3:][:1]}
+                                                   | {others[(si * 2 + j + rep) % len(others)] for j in range(2)})
+                inv_forms = {"int64", others[(si * 2 + rep) % len(others)] if others else "c128"}
+                for fi, form in enumerate(chosen):
+                    raw = _dv_cast(form, vec)
+                    inv = None
+                    if form == "c128" or n == 6:
+                        inv = "full"
+                    elif n <= 3 and form in inv_forms:
+                        inv = "exact"
+                    _dv_mw_case(ctx, n, form, sname, raw, info, keyword=((si + fi) % 3 == 1),
+                                tie=(form == "c128" and (n <= 4 or si % 4 == 0)) or (n <= 3 and (si + fi) % 5 == 0), inv=inv)
+                    if n >= 2 and form in heavy:
+                        style = DV_GEO_STYLE_ORDER[(si + fi) % len(DV_GEO_STYLE_ORDER)]
+                        _dv_geo_case(ctx, n, form, sname, raw, info, ctx.rng.getrandbits(31), style=style,
+                                     tie=(form == "c128" and n <= 4 and si % 2 == 0) or (n <= 3 and (si + fi) % 7 == 1))
+            if 2 <= n <= 4:
+                # (4) call forms: a complex dense state as ndarray / list / tuple, a real state as float list, an integer basis list
+                pick = {nm: (v, i) for nm, v, i in sts}
+                cases = [("dense-complex", "c128"), ("dense-complex", "list-complex"), ("dense-complex", "tuple-complex"),
+                         ("w-phases", "list-mixed"), ("dense-real", "list-float"), ("dense-real", "f32"),
+                         ("basis1-neg" if n <= 2 else "basis2", "list-int"), ("ghz-rel-i", "c64")]
+                for sname, form in cases[:{2: 8, 3: 4, 4: 2}[n]] if rep == 0 else cases:
+                    if sname in pick:
+                        _diversity_geo_callforms(ctx, n, form, sname, _dv_cast(form, pick[sname][0]), ctx.rng.getrandbits(31))
+    ctx.notes.append("diversity pass: float32 / complex64 inputs are compared to 5e-5 in the geometric measure (tensorly then "
+                     "computes in single precision; unchanged code reaches 3e-7), Meyer-Wallach on them to 1e-9 (the slices are "
+                     "complex128)")
+
+
+def _dv_replay(ctx, r):
+    vec = cvec(r["re"], r["im"])
+    n, form, sname = int(r["n"]), r["form"], r["state"]
+    info = r.get("info") or {}
+    if info.get("geo"):
+        info["geo"] = tuple(info["geo"])
+    raw = _dv_cast(form, vec)
+    if r["entry"] == "mw":
+        _dv_mw_case(ctx, n, form, sname, raw, info, keyword=bool(r.get("keyword")), inv=r.get("inv"))
+    elif r["entry"] == "geo":
+        _dv_geo_case(ctx, n, form, sname, raw, info, int(r["seed"]), style=r.get("style", "positional"))
+    else:
+        _diversity_geo_callforms(ctx, n, form, sname, raw, int(r["seed"]))
+
+# ================================================================================================
+# end of the input-diversity section
+# ================================================================================================
+
+
 def run_sizes(ctx, ns_mw, ns_geo, reps, mwq_ns, mwf_ns, qreps=1):
     tie_iota(ctx, 10)
     oracle_iota(ctx, 10)
@@ -946,6 +1637,7 @@ def run_sizes(ctx, ns_mw, ns_geo, reps, mwq_ns, mwf_ns, qreps=1):
         x = g.normal(size=2 ** n)
         x /= np.linalg.norm(x)
         oracle_geo_state(ctx, n, "real-dtype", x, ctx.rng.getrandbits(31), tie=False)
+    _diversity(ctx, reps=(1 if ctx.quick else 3))
     ctx.notes.append("geometric measure tolerances: product/GHZ 1e-9 (unchanged code reaches 4e-15), W_n 1e-3 "
                      "(tucker's stopping tol=1e-4 leaves ~1e-5), fidelity 1e-7; numpy global RNG seeded before each call")
     # observation outside the stated property: tensorly's random init is real, so real-amplitude states are optimised over
@@ -997,6 +1689,9 @@ def replay(ctx, payload):
         return
     if r.get("kind") == "iota":
         oracle_iota(ctx, int(r["n"]))
+        return
+    if r.get("kind") == "dv":
+        _dv_replay(ctx, r)
         return
     v = cvec(r["re"], r["im"])
     n = len(v).bit_length() - 1
